@@ -32,6 +32,8 @@ type Result struct {
 	// Known is the id of the known finding whose signature explains Fail; the case is
 	// then counted but not reported (only set by classifiers, only for listed findings).
 	Known string
+	// KnownHits lists known findings that were observed and excused while the case continued.
+	KnownHits []string
 	// NonTrivial says whether the case satisfies the property's stated non-triviality rule.
 	NonTrivial bool
 	// Classes are labels for the distribution report.
@@ -128,6 +130,9 @@ func Record(prop string, caseVal any, r *Result) {
 	}
 	if r.Known != "" {
 		c.knownHits[r.Known]++
+	}
+	for _, k := range r.KnownHits {
+		c.knownHits[k]++
 	}
 	if r.Fail != "" && r.Known == "" {
 		c.failures++
@@ -258,7 +263,7 @@ func Check[C any](t *testing.T, prop, part string, gen func(*rapid.T) C, exec fu
 		}
 		r := exec(c)
 		Record(prop, c, r)
-		fmt.Printf("REPLAY-RESULT property=%s part=%s fail=%q known=%q\n", prop, part, r.Fail, r.Known)
+		fmt.Printf("REPLAY-RESULT property=%s part=%s fail=%q known=%q hits=%q\n", prop, part, r.Fail, r.Known, strings.Join(r.KnownHits, ","))
 		if r.Fail != "" {
 			for _, l := range r.Trace {
 				fmt.Println("  | " + l)
